@@ -27,7 +27,11 @@ RULE = ("corpus: every flow of every shipped test/mitmproxy/data/dumpfile-*.mitm
         "same with one field of the old state deleted/replaced (converter bodies raising); 10% the same with an extra "
         "bytes-keyed version entry (stale entry); 20% ver = version values from a dictionary (current, newer ints, "
         "unknown tuples, bool, float, None, str, bytes, nested lists, missing) under the str key, the bytes key or both, "
-        "on a minimal dict or a real current state (8% of the total instead are wsfile = the raw format-7 records of the shipped "
+        "on a minimal dict or a real current state (5% of the total instead are replay = first record of a shipped "
+        "format <= 8 dump with request/response is_replay markers in {absent, False, True} and response kept/removed: the "
+        "loaded flow.is_replay must follow request > response > None; synth recipes also vary every field a converter reads "
+        "or moves: per-message replay markers, first_line_format, server ALPN, offers/cipher lists, certificates, old-style "
+        "nested via connection, absent mode/state keys, None client timestamp, non-ASCII SNI bytes; 8% are wsfile = the raw format-7 records of the shipped "
         "websocket dump in generated orders: overlapping connections A B wsB wsA, websocket before/without handshake, repeats, "
         "handshakes tagged with distinct host/port/path; every loaded flow must carry its own handshake id/host/port/path "
         "and message count, host unknown only where the reference says the handshake is missing). Non-trivial = at least one converter ran or the file was rejected; "
@@ -222,14 +226,21 @@ def build_current(r):
     cc["tls_version"], sc["tls_version"] = r.get("tlsc"), r.get("tlss")
     cc["sni"], sc["sni"] = r.get("snic"), r.get("snis")
     cc["alpn"] = bytes.fromhex(r["alpn"]) if r.get("alpn") is not None else None
-    sc["alpn"] = None
+    sc["alpn"] = bytes.fromhex(r["salpn"]) if r.get("salpn") is not None else None
     cc["cipher"] = r.get("cipher")
+    if r.get("offers"):
+        cc["alpn_offers"], cc["cipher_list"] = [b"h2", b"http/1.1"], ["TLS_AES_128_GCM_SHA256", "TLS_CHACHA20_POLY1305_SHA256"]
+        sc["alpn_offers"], sc["cipher_list"] = [b"http/1.1"], ["ECDHE-RSA-AES128-GCM-SHA256"]
+    if r.get("ccert"):
+        cc["certificate_list"] = [_pem()]
+    if r.get("scert"):
+        sc["certificate_list"] = [_pem()] * (r["scert"] if v >= 10 else 1)
     cc["tls"] = sc["tls"] = bool(r.get("tls"))
     host = r.get("host", "address")
     sc["address"] = (host, 443) if host is not None else None
     sc["peername"] = ("192.168.0.1", 443) if r.get("peer", True) else None
     cc["peername"] = (r.get("chost", "127.0.0.1"), 50000 + r.get("n", 0) % 1000)
-    cc["timestamp_start"] = float(ts)
+    cc["timestamp_start"] = 0.0 if (r.get("cc_ts_none") and v < 19 and (v >= 16 or t not in ("tcp", "udp"))) else float(ts) - 5.0
     if r.get("via") and v >= 19:
         sc["via"] = ("http", ("proxy.example", 8080))
     if v >= 18 and r.get("pmode"):
@@ -255,11 +266,17 @@ def build_current(r):
     if v < 10:
         cc["alpn_offers"] = [cc["alpn"]] if cc["alpn"] else []
         cc["cipher_list"] = [cc["cipher"]] if cc["cipher"] else []
-        sc["cipher"], sc["cipher_list"], sc["alpn_offers"] = None, [], []
+        sc["cipher"], sc["cipher_list"] = None, []
+        sc["alpn_offers"] = [sc["alpn"]] if sc["alpn"] else []
         cc["error"] = sc["error"] = None
         cc["sockname"] = ("", 0)
+    if v >= 9 and r.get("replay"):
+        s["is_replay"] = r["replay"]
     if v < 9:
-        s["is_replay"] = None
+        # flow-level is_replay is computed by convert_8_9 from the per-message markers chosen in down()
+        rq, rs = r.get("rq_replay"), r.get("rs_replay")
+        s["is_replay"] = "request" if ("request" in s and rq is True) else \
+            "response" if (s.get("response") and rs is True) else None
         if "request" in s:
             s["request"]["authority"] = b""
     if v < 8:
@@ -268,6 +285,17 @@ def build_current(r):
                 s[m]["trailers"] = None
     real = flow.Flow.from_state(copy.deepcopy(s))
     return _canon(real.get_state())
+
+
+_PEM = None
+
+
+def _pem():
+    global _PEM
+    if _PEM is None:
+        from mitmproxy import certs
+        _PEM = certs.Cert.from_pem(open(os.path.join(REPO, "test/mitmproxy/net/data/text_cert"), "rb").read()).get_state()
+    return _PEM
 
 
 def _enc(addr):
@@ -288,7 +316,8 @@ def down(s, v, r):
                 if c["tls_version"] == "QUICv1":
                     c["tls_version"] = "QUIC"
         elif cur == 20:
-            cc["state"], sc["state"] = r.get("cstate", 0), r.get("sstate", 3)
+            if not r.get("state_absent"):
+                cc["state"], sc["state"] = r.get("cstate", 0), r.get("sstate", 3)
         elif cur == 19:
             cc["address"] = cc.pop("peername")
             cc["tls_extensions"] = [[0, b"\x00"]] if r.get("tlsext") else None
@@ -296,6 +325,8 @@ def down(s, v, r):
             sc["source_address"] = sc.pop("sockname")
             sc["via2"] = sc.pop("via")
             sc["via"] = None
+            if cc["timestamp_start"] == 0.0 and r.get("cc_ts_none"):
+                cc["timestamp_start"] = None
             for c in conns:
                 c["tls_established"] = c["tls"]
                 c["cipher_name"] = c.pop("cipher")
@@ -304,13 +335,21 @@ def down(s, v, r):
             # sni=True (use the address) existed in format versions 11..18 only
             if r.get("sni_true") and v >= 11 and sc["address"] and sc["sni"] == sc["address"][0]:
                 sc["sni"] = True
+            if r.get("oldvia") and v <= 18:
+                # old-style upstream-proxy connection nested under via (formats <= 18): converted by 9_10/10_11 when
+                # present, then dropped by 18_19
+                sc["via"] = copy.deepcopy({k: x for k, x in sc.items() if k not in ("via", "via2")})
+                sc["via"]["via"] = None
+                sc["via"]["via2"] = None
+                sc["via"]["id"] = "via-old"
             if r.get("addr_bytes"):
                 for a in (cc["address"], cc.get("sockname"), sc["ip_address"], sc["source_address"], sc["address"]):
                     _enc(a)
         elif cur == 18:
             assert cc.pop("proxy_mode") == "regular"
         elif cur == 17:
-            s["mode"] = r.get("mode", "regular")
+            if not r.get("mode_absent"):
+                s["mode"] = r.get("mode", "regular")
         elif cur == 16:
             s.pop("timestamp_created")
         elif cur == 15:
@@ -328,9 +367,10 @@ def down(s, v, r):
             assert s.get("websocket") is None
             s.pop("websocket", None)
         elif cur == 11:
-            for c in conns:
+            for c in conns + ((sc["via"],) if sc.get("via") else ()):
                 if r.get("sni_bytes") and isinstance(c["sni"], str) and c["sni"].isascii():
-                    c["sni"] = c["sni"].encode()
+                    # always_str(bytes, "ascii", "backslashreplace"): \xe9 in the str came from the byte e9
+                    c["sni"] = c["sni"].encode().replace(b"\\xe9", b"\xe9")
                 c["alpn_proto_negotiated"] = c.pop("alpn")
                 if r.get("none_offers"):
                     c["alpn_offers"] = c["alpn_offers"] or None
@@ -342,19 +382,26 @@ def down(s, v, r):
             cl = sc.pop("certificate_list")
             sc["cert"] = cl[0] if cl else None
             assert sc.pop("via2") is None and sc["cipher_name"] is None
-            for c in conns:
-                c.pop("state"), c.pop("alpn_offers"), c.pop("cipher_list")
+            ov = sc.get("via")
+            if ov:
+                cl = ov.pop("certificate_list")
+                ov["cert"] = cl[0] if cl else None
+                ov.pop("via2")
+            for c in conns + ((ov,) if ov else ()):
+                c.pop("state", None), c.pop("alpn_offers"), c.pop("cipher_list")
                 assert c.pop("error") is None
                 assert c.pop("tls") == c["tls_established"]
             if r.get("sc_cipher"):
                 sc["cipher_name"] = "ECDHE-RSA-AES128-GCM-SHA256"
         elif cur == 9:
-            assert s.pop("is_replay") is None
+            s.pop("is_replay")
             if "request" in s:
                 assert s["request"].pop("authority") == b""
-                s["request"]["first_line_format"] = "relative"
-                if r.get("is_replay_false"):
-                    s["request"]["is_replay"] = False
+                s["request"]["first_line_format"] = r.get("flf", "relative")
+                if r.get("rq_replay") is not None:
+                    s["request"]["is_replay"] = r["rq_replay"]
+            if s.get("response") and r.get("rs_replay") is not None:
+                s["response"]["is_replay"] = r["rs_replay"]
         elif cur == 8:
             for m in ("request", "response"):
                 if s.get(m):
@@ -401,9 +448,17 @@ def _recipe(rng, n):
          "alpn": rng.choice([None, "6832", "687474702f312e31"]), "cipher": rng.choice([None, "TLS_AES_128_GCM_SHA256"]),
          "tls": rng.chance(0.5), "host": rng.choice(["address", "example.org", "10.0.0.1", "::1", None]),
          "peer": rng.chance(0.8), "content": rng.bytes(rng.randint(0, 6)).hex()}
-    for flag, p in (("via", .2), ("injected", .3), ("bug4576", .25), ("tsc", .5), ("nobackup", .5), ("tlsext", .3),
+    r["salpn"] = rng.choice([None, None, "6832"])
+    r["rq_replay"], r["rs_replay"] = rng.choice([None, False, True, True]), rng.choice([None, False, True])
+    r["replay"] = rng.choice([None, None, "request", "response"])
+    r["flf"] = rng.choice(["relative", "absolute", "authority"])
+    r["scert"] = rng.choice([0, 0, 1, 2])
+    if rng.chance(0.15):
+        r["snic"] = "\\xe9.example"
+    for flag, p in (("offers", .3), ("ccert", .25), ("oldvia", .3), ("mode_absent", .3), ("state_absent", .3), ("cc_ts_none", .2),
+                    ("via", .2), ("injected", .3), ("bug4576", .25), ("tsc", .5), ("nobackup", .5), ("tlsext", .3),
                     ("drop_tp", .4), ("sni_true", .4), ("addr_bytes", .4), ("sni_bytes", .4), ("none_offers", .4),
-                    ("sc_cipher", .3), ("is_replay_false", .3)):
+                    ("sc_cipher", .3)):
         if rng.chance(p):
             r[flag] = True
     if rng.chance(0.3):
@@ -446,6 +501,9 @@ def gen(rng, n, tier):
             out.append({"k": "synth", "r": r})
         elif x < 0.88:
             out.append(_wsfile(rng))
+        elif x < 0.93:
+            out.append({"k": "replay", "file": rng.choice(REPLAY_FILES), "rq": rng.choice([None, False, True, True]),
+                        "rs": rng.choice([None, False, True]), "noresp": rng.chance(0.25)})
         else:
             out.append({"k": "ver", "base": rng.choice(["min", "min", "real"]), "keys": rng.choice(["s", "s", "b", "bs", "sb"]),
                         "val": _j(rng.choice(VER_VALUES)), "val2": _j(rng.choice(VER_VALUES))})
@@ -453,6 +511,26 @@ def gen(rng, n, tier):
 
 
 WS_DUMP = "dumpfile-7-websocket.mitm"
+# shipped dumps of a format <= 8 (their first record is an HTTP flow with a response)
+REPLAY_FILES = ["dumpfile-011.mitm", "dumpfile-018.mitm", "dumpfile-019.mitm", WS_DUMP]
+
+
+def _replay_record(case):
+    """First raw record of a shipped old dump with the per-message replay markers of formats <= 8 set as the case says
+    (None = marker absent); -> (record, expected flow-level is_replay per the documented precedence request > response)."""
+    d = tnetstring.load(open(os.path.join(DATA, case["file"]), "rb"))
+    key = (lambda x: x.encode()) if b"request" in d else (lambda x: x)
+    req, resp = d[key("request")], d.get(key("response"))
+    if case.get("noresp"):
+        d[key("response")] = resp = None
+    for m, val in ((req, case["rq"]), (resp, case["rs"])):
+        if m is not None:
+            m.pop(key("is_replay"), None)
+            if val is not None:
+                m[key("is_replay")] = val
+    want = "request" if case["rq"] is True else "response" if (resp is not None and case["rs"] is True) else None
+    return d, want
+
 
 
 def _wsfile(rng):
@@ -543,6 +621,9 @@ def _file_for(case):
     k = case["k"]
     if k == "dump":
         return open(os.path.join(DATA, case["file"]), "rb").read(), case["idx"], None, {}
+    if k == "replay":
+        d, want = _replay_record(case)
+        return tnetstring.dumps(d), 0, None, {"replay_want": want}
     if k == "wsfile":
         recs = _ws_records(case)
         return b"".join(tnetstring.dumps(d) for d in recs), len(recs) - 1, None, {"ws_want": _ws_expected(recs)}
@@ -607,6 +688,9 @@ def run_impl(case):
         obs["eff_key_known"] = (eff in compat.converters if isinstance(eff, int) else
                                 (_hashable2(eff) and tuple(eff)[:2] in compat.converters))
         obs["pure_current_real"] = info["pure_current_real"]
+    if case["k"] == "replay":
+        obs["replay_want"] = info["replay_want"]
+        obs["replay_got"] = flows[0].is_replay if flows else "<not loaded>"
     if case["k"] == "wsfile":
         obs["ws_want"] = info["ws_want"]
         obs["ws_got"] = [[f.id, f.request.host, f.request.port, f.request.path,
@@ -707,6 +791,12 @@ def oracle(case, obs):
         v.append({"key": "reader-other-exception", "what": f"{tag}: FlowReader.stream raised {end[6:]}"})
         return v
     loaded = obs["nflows"] > (case["idx"] if k == "dump" else len(case["order"]) - 1 if k == "wsfile" else 0)
+    if k == "replay":
+        tag = f"{case['file']} record 0 with request.is_replay={case['rq']} response.is_replay={case['rs']}" + \
+            (" and no response" if case.get("noresp") else "")
+        if obs["replay_got"] != obs["replay_want"]:
+            v.append({"key": "replay-marker-lost", "what": f"{tag}: loaded flow has is_replay={obs['replay_got']!r}, "
+                                                           f"expected {obs['replay_want']!r}"})
     if k == "wsfile":
         tag = f"records {case['order']} of {WS_DUMP}" + (" (tagged)" if case.get("tag") else "")
         if end != "ok" or obs["nflows"] != obs["nrec"]:
@@ -770,6 +860,8 @@ def classify(case, obs):
     o = m["out"]
     tags = [case["k"], "end=" + obs["end"].split(":")[0],
             "out=" + (next(iter(o)) if isinstance(o, dict) else str(o)), "calls=%d" % min(len(m["calls"]), 15)]
+    if case["k"] == "replay":
+        tags += ["replay=%s" % obs.get("replay_want")]
     if case["k"] == "wsfile":
         tags += ["ws-dummy" if any(w[1] == "unknown" for w in obs.get("ws_want", [])) else "ws-all-matched",
                  "ws-n=%d" % len(case["order"])]
